@@ -2131,6 +2131,45 @@ def check_c36(A: Analysis, col: Collector):
             reach = R.cfg.reachable_from([m for _, m in s.succ])
             if any(o.id in reach for o in sn):
                 col.fail("C36.pairing", fn.qualname, "start-record-twice", "start_audit can run twice on one path", A.loc(s.stmt))
+    # nothing that can raise sits between the call that sends the start record and the try whose finally
+    # sends the end record (an exception there leaves an open activity and no saved result)
+    for R in run_functions(A):
+        fnr = R.fn
+        cfg_r = A.cfg(fnr)
+        tok = A.rm.tokens_fn(fnr)
+        for st_node in [n for n in walk_own(fnr.node) if isinstance(n, ast.Expr) and isinstance(n.value, ast.Call) and isinstance(n.value.func, ast.Attribute) and n.value.func.attr == "start_audit"]:
+            par = getattr(st_node, "_parent", None)
+            body = next((b for fld in ("body", "orelse", "finalbody") if isinstance(b := getattr(par, fld, None), list) and st_node in b), None)
+            if body is None:
+                continue
+            i = body.index(st_node)
+            between = []
+            guard_try = None
+            for nxt in body[i + 1 :]:
+                if isinstance(nxt, ast.Try) and any(isinstance(c, ast.Call) and isinstance(c.func, ast.Attribute) and c.func.attr == "finalize_audit" for fb in nxt.finalbody for c in ast.walk(fb)):
+                    guard_try = nxt
+                    break
+                between.append(nxt)
+            if guard_try is None:
+                col.fail("C36.pairing", fnr.qualname, "start-record-not-followed-by-guard", "start_audit is not followed (in the same block) by the try whose finally calls finalize_audit", A.loc(st_node))
+                continue
+            risky = []
+            for b in between:
+                hit = None
+                for sub in [k for k in ast.walk(b) if isinstance(k, ast.stmt)]:
+                    for nd in cfg_r.nodes_of(sub):
+                        if tok(nd):
+                            hit = sorted(tok(nd))
+                            break
+                    if hit:
+                        break
+                if hit:
+                    risky.append((b, hit))
+            if risky:
+                b, toks = risky[0]
+                col.fail("C36.pairing", fnr.qualname, f"may-raise-between-start-record-and-guard:{shape(b, 40)}", f"`{norm(b, 60)}` runs after the start record was sent and before the try whose finally sends the end record, and may raise {toks[:3]} (for a shell task audit_task renders the command line, which calls user formatters): the activity stays open and no result is saved", A.loc(b))
+            else:
+                col.ok("C36.pairing", f"{fnr.name}: nothing that can raise lies between start_audit and the try that guarantees finalize_audit ({len(between)} statement(s) in between)", A.loc(st_node))
     # the end record is sent on every normal path through finalize_audit: no return before it
     end_call = ends[0][0]
     early = [r for r in walk_own(fa.node) if isinstance(r, ast.Return) and r.lineno < end_call.lineno]
